@@ -86,6 +86,7 @@ class ObResult:
         self.model = model
         self.prop = list(prop)
         self.text = text
+        self.candidate = None
 
     def to_json(self):
         d = dict(name=self.name, kind=self.kind, function=self.fn, line=self.line,
@@ -94,6 +95,8 @@ class ObResult:
             d['detail'] = str(self.detail)[:2000]
         if self.model is not None:
             d['model'] = self.model
+        if getattr(self, 'candidate', None) is not None:
+            d['candidate_model'] = self.candidate
         if self.text:
             d['text'] = self.text
         if self.prop:
@@ -198,13 +201,26 @@ class Engine:
         if os.environ.get('PYVC_TRACE'):
             print('TRACE %-50s %-9s %7.0fms pc=%d last-line=%s' % (name, verdict, ms, len(st.pc), getattr(st, 'last_line', '?')), flush=True)
         model = None
+        candidate = None
         if verdict == 'refuted':
             model = self.model_to_json(info, st)
             info = None
-        self.merge_result(ObResult(name, kind, self.cur_fn, line, verdict, backend, ms, info,
-                                   model, prop=(getattr(self, 'clause_props', None) or
-                                                (self.cur_contract.prop if self.cur_contract else ())),
-                                   text=text))
+        elif verdict == 'undecided' and kind in ('post', 'post-exc', 'noraise'):
+            # not a verdict: an input that satisfies the quantifier-free part of the path condition and
+            # falsifies the goal.  It may violate the dropped (quantified) facts, so it only counts if
+            # the driver can replay it on the real function and the real result breaks the clause.
+            try:
+                cm = solve.candidate(st.pc, goal)
+                if cm is not None:
+                    candidate = self.model_to_json(cm, st)
+            except Exception:
+                candidate = None
+        r_ = ObResult(name, kind, self.cur_fn, line, verdict, backend, ms, info,
+                      model, prop=(getattr(self, 'clause_props', None) or
+                                   (self.cur_contract.prop if self.cur_contract else ())),
+                      text=text)
+        r_.candidate = candidate
+        self.merge_result(r_)
         st.assume(goal)
 
     def merge_result(self, r):
@@ -217,6 +233,8 @@ class Engine:
                 rank = {'proved': 0, 'undecided': 1, 'refuted': 2}
                 if rank[r.verdict] > rank[old.verdict]:
                     old.verdict, old.backend, old.detail, old.model = r.verdict, r.backend, r.detail, r.model
+                if getattr(old, 'candidate', None) is None and getattr(r, 'candidate', None) is not None:
+                    old.candidate = r.candidate
                 return
         r.paths = 1
         self.results.append(r)
@@ -1137,6 +1155,9 @@ class Engine:
                 if getattr(c, 'is_property', False):
                     return None  # handled by caller
                 return mk_obj('boundmethod', (key, base))
+            ca = self.m.class_attrs.get((base.t.cls, attr))
+            if ca is not None and ca[0] == 'const':
+                return ca[1]       # class-level constant read through an instance
             raise OutOfSubset('unknown attribute %s.%s' % (base.t.cls, attr), node)
         if isinstance(base.t, TObj):
             if base.t.kind == 'class':
